@@ -628,36 +628,58 @@ int main(int argc, char **argv)
 		return 0;
 	}
 	if (argc >= 5 && !strcmp(argv[1], "replay")) {
+		/* every `seq <id>` block of the file is replayed in its own process */
 		FILE *f = fopen(argv[2], "r");
 		char line[512], id[64] = "replay";
-		pid_t pid;
-		int status, rc = 0;
+		int rc = 0;
+		long block_start = -1;
 		wavpath = argv[3];
 		load_inputs(argc, argv, 4);
 		if (f == NULL) {
 			fprintf(stderr, "cannot open %s\n", argv[2]);
 			return 2;
 		}
-		printf("seq %s 0\n", id);
-		fflush(stdout);
-		pid = fork();
-		if (pid == 0) {
-			child_setup(errpath);
-			while (fgets(line, sizeof(line), f)) {
-				char fn[64];
-				int a1, a2, a3, a4;
-				if (sscanf(line, "c %63s %d %d %d %d", fn, &a1, &a2, &a3, &a4) == 5)
-					call(fn, a1, a2, a3, a4);
+		for (;;) {
+			long here = ftell(f);
+			int eof = fgets(line, sizeof(line), f) == NULL;
+			int is_seq = !eof && !strncmp(line, "seq ", 4);
+			if (!eof && !is_seq && block_start < 0 && line[0] == 'c')
+				block_start = here;	/* file without seq header */
+			if ((eof || is_seq) && block_start >= 0) {
+				long resume = ftell(f);
+				pid_t pid;
+				int status;
+				printf("seq %s 0\n", id);
+				fflush(stdout);
+				pid = fork();
+				if (pid == 0) {
+					child_setup(errpath);
+					fseek(f, block_start, SEEK_SET);
+					while (fgets(line, sizeof(line), f) && strncmp(line, "seq ", 4)) {
+						char fn[64];
+						int a1, a2, a3, a4;
+						if (sscanf(line, "c %63s %d %d %d %d", fn, &a1, &a2, &a3, &a4) == 5)
+							call(fn, a1, a2, a3, a4);
+					}
+					child_finish();
+					printf("endseq %s\n", id);
+					fflush(stdout);
+					_exit(0);
+				}
+				waitpid(pid, &status, 0);
+				if (!WIFEXITED(status) || WEXITSTATUS(status) != 0) {
+					report_crash(id, status, errpath);
+					rc = 1;
+				}
+				fseek(f, resume, SEEK_SET);
+				block_start = -1;
 			}
-			child_finish();
-			printf("endseq %s\n", id);
-			fflush(stdout);
-			_exit(0);
-		}
-		waitpid(pid, &status, 0);
-		if (!WIFEXITED(status) || WEXITSTATUS(status) != 0) {
-			report_crash(id, status, errpath);
-			rc = 1;
+			if (eof)
+				break;
+			if (is_seq) {
+				sscanf(line, "seq %63s", id);
+				block_start = ftell(f);
+			}
 		}
 		unlink(errpath);
 		return rc;
